@@ -5,6 +5,7 @@ unresolved `lock_all_entries` item is dropped — never polled (`replica`), queu
 already handed the lock but not polled again (`queued` and holder). A `try_lock_async` future has no
 await point between its lookup and its clean-up, so it has nothing to cancel (DESIGN.md §9 C06).
 -/
+import Lockable.Proofs.Stream2
 import Lockable.Proofs.NoPanic
 import Lockable.Proofs.Erasure
 import Lockable.Props.C15
@@ -233,5 +234,73 @@ example :
       a3.s.order = [1] ∧ absVal a3.s 1 = some 10 ∧ a3.s.hs 200 = none ∧ a3.susp.isEmpty = true ∧
       a4.s.order = [9] ∧ a4.s.hs 3 = some ⟨9, 1, .holding⟩ ∧ a4.susp.isEmpty = true := by
   decide
+
+/-- **Dropping a stream half-way, after any history**: every unresolved item is gone (never polled, queued, or already handed a
+lock — also when the release of one hands the lock to the next), the stream is gone, no stored value changed, and the API-level
+invariant holds afterwards (so the counts are exact again and every other stream's bookkeeping is intact). -/
+theorem C06_stream_drop_api (kind : Kind) (cs : List Call) (sid : Nat) (st : StreamSt) :
+    let a := cs.foldl (fun a c => (a.exec c).1) (Api.init kind)
+    a.streams.lookup sid = some st →
+    let a' := (a.exec (.sdrop sid)).1
+    (∀ w ∈ st.items, a'.s.hs w = none) ∧ itemsAt a' sid = none ∧ (∀ k, absVal a'.s k = absVal a.s k) ∧ AInv a' := by
+  intro a hl a'
+  have hi : AInv a := ainv_execs cs _ (ainv_init kind)
+  have hmem := lookup_mem _ _ _ hl
+  have hsto := hi.sok.each _ hmem
+  have hcanc : ∀ h ∈ st.items, Cancellable a.s h := by
+    intro h hh
+    obtain ⟨wd, e1, hc⟩ := hsto.item h hh
+    rcases hc with ⟨c, _⟩ | ⟨c, _⟩
+    · exact ⟨wd, e1, Or.inl c⟩
+    · exact ⟨wd, e1, Or.inr c⟩
+  have hnd : st.items.Nodup := hi.sok.nodup _ hmem
+  have hs' : a'.s = run a.s (st.items.map Act.cancel) := by
+    show (a.exec (.sdrop sid)).1.s = _
+    simp only [Api.exec, hl]
+    rw [cancelAll_s]
+  refine ⟨?_, ?_, ?_, ainv_exec a (.sdrop sid) hi⟩
+  · intro w hw
+    rw [hs']
+    exact C06_stream_drop_gone st.items a.s hi.inv hcanc hnd w hw
+  · cases hq : itemsAt a' sid with
+    | none => rfl
+    | some its' =>
+      rcases exec_sub a (.sdrop sid) hi sid its' hq with ⟨its, e, _⟩ | ⟨_, h0, e⟩
+      · -- the stream cannot survive its own drop: look it up in the filtered list
+        exfalso
+        have hq' := hq
+        show False
+        simp only [a', Api.exec, hl] at hq'
+        have hk := keeps_cancelAll st.items ⟨a.s, a.streams.filter (fun p => decide (p.1 ≠ sid)), a.susp⟩
+          ⟨hi.inv, sok_filter _ _ _ hi.sok⟩ (by
+            intro h' hh hin
+            obtain ⟨q, hq1, hw⟩ := (mem_itemsOfSS _ h').1 hin
+            obtain ⟨hq2, hq3⟩ := List.mem_filter.1 hq1
+            have := hi.sok.disj _ hmem q hq2 h' hh hw
+            simp at hq3 this
+            exact hq3 this.symm)
+        have hfe : (a.streams.filter fun (p : Nat × StreamSt) => match p with | (i, _) => decide (i ≠ sid))
+            = a.streams.filter (fun p => decide (p.1 ≠ sid)) := by
+          apply List.filter_congr
+          intro p _; obtain ⟨i, x⟩ := p; rfl
+        rw [hfe, keeps_itemsAt hk] at hq'
+        unfold itemsAt at hq'
+        simp only [lookup_filter_key a.streams sid sid _ (fun _ => rfl), ↓reduceIte] at hq'
+        cases hq'
+      · cases e
+  · intro k
+    rw [hs']
+    exact (C06_stream_drop st.items a.s hi.inv).2 k
+
+/-- non-vacuity: a stream over {1 held by guard 1, 2 free} has yielded 2 and is dropped while its item for key 1 is queued behind
+guard 1: the item is gone, key 1 keeps only its guard, the values are untouched -/
+example :
+    let a0 : Api := Api.init .lru
+    let a1 := (((a0.exec (.lock .wait 1 1 .none 100)).1.exec (.op 1 (.insert 10))).1.exec (.lock .wait 2 2 .none 100)).1
+    let a2 := (((a1.exec (.op 2 (.insert 20))).1.exec (.drop 2)).1.exec (.lockAll 1 200)).1
+    let a3 := ((a2.exec (.spoll 1)).1.exec (.spoll 1)).1
+    let a4 := (a3.exec (.sdrop 1)).1
+    (a3.streams.map fun p => p.2.items) = [[200]] ∧ (a3.s.hs 200).isSome = true ∧
+    a4.streams.isEmpty = true ∧ a4.s.hs 200 = none ∧ absVal a4.s 1 = some 10 ∧ absVal a4.s 2 = some 20 := by decide
 
 end Lockable
